@@ -1472,6 +1472,10 @@ Op* RegularExpression::compile(const Token* const token, Op* const next,
         break;
     case Token::T_RANGE:
     case Token::T_NRANGE:
+        // Build the token's bitmap now rather than on the first match: a
+        // compiled expression (e.g. the pattern facet of a datatype
+        // validator) can be used by several threads at once.
+        ((RangeToken*) token)->createMap();
         ret = fOpFactory.createRangeOp(token);
         ret->setNextOp(next);
         break;
